@@ -201,3 +201,36 @@ func (p *Prog) performs(pred func(ssa.Instruction) bool, depth int) func(ssa.Ins
 		return v
 	}
 }
+
+// precededBy: on every path from the entry of the enclosing function to `in`, an instruction
+// satisfying pred executes first; if not, the obligation is lifted to every static call site of the
+// enclosing function (to the given depth). Functions without callers fail.
+func (p *Prog) precededBy(in ssa.Instruction, pred func(ssa.Instruction) bool, depth int, seen map[*ssa.Function]bool) (bool, []string) {
+	fn := in.Parent()
+	_, _, found := reachAvoiding([]cfgPos{entryPos(fn)}, func(x ssa.Instruction) bool { return x == in }, pred, nil)
+	if !found {
+		return true, nil
+	}
+	here := funcKey(fn) + " @" + p.Pos(instrPos(in))
+	if depth <= 0 || seen[fn] {
+		return false, []string{here + " (lift bound)"}
+	}
+	seen[fn] = true
+	defer delete(seen, fn)
+	var sites []ssa.CallInstruction
+	for _, c := range p.CallSites(fn) {
+		if !isTestdataOrMock(c.Parent()) {
+			sites = append(sites, c)
+		}
+	}
+	if len(sites) == 0 {
+		return false, []string{here + " (no callers)"}
+	}
+	for _, c := range sites {
+		ok, chain := p.precededBy(c, pred, depth-1, seen)
+		if !ok {
+			return false, append([]string{here}, chain...)
+		}
+	}
+	return true, nil
+}
